@@ -1,6 +1,57 @@
 """B-cfi_unwind: call frame instruction decode, unwind table evaluation, unwind context (DESIGN.md 6 C06 / C20 / C01).
 
-(work in progress header, replaced at the end)
+Source: /repo/src/read/cfi.rs (+ constants.rs, arch.rs, read/mod.rs).  Oracle: vx/specs/cfi_unwind.rs (`cfa_step`, written from
+DWARF 5 section 6.4.2 on an abstract context: stack of rows (start, end, cfa, rules: Map<Register, RegisterRule>, args_size),
+initial rules Option<Map>, CIE factors, storage limits) and the decode table CFA below (DWARF 5 table 7.29 / section 7.24).
+
+FUNCTIONS UNDER CONTRACT, VERIFIED FROM THEIR REAL TEXT (owners C01 + C06; UnwindContext also C20)
+  CallFrameInstruction::parse        per-opcode decode clause for every DW_CFA opcode (high-2-bit forms, extended opcodes, GNU_args_size),
+                                     exact consumption, operands (ULEB/SLEB/fixed), registers wider than 16 bits rejected, expression
+                                     operands as (offset, length) views of the section, vendor gate on AARCH64_negate_ra_state,
+                                     unknown opcode => UnknownCallFrameInstruction(opcode), acceptance of well-formed input, frame, progress
+  CallFrameInstructionIter::next     iterator protocol (Err empties the input, Ok(Some) consumes, Ok(None) only at the end)
+  UnwindTable::evaluate              == cfa_step for each of the 23 instruction kinds (result incl. the specific error, the whole
+                                     abstract context, next row start), errors leave the context unchanged, table fields framed
+  UnwindTable::next_row              rows contiguous (start == previous end), starts non-decreasing, last row ends at the FDE end
+                                     address, returned row is the current row, iterator protocol with the lexicographic measure
+                                     (remaining instruction bytes, last row not yet returned); termination of the loop
+  UnwindTable::into_current_row, UnwindTableRow::{start_address,end_address,contains,saved_args_size,cfa,register},
+  UnwindContext::{start_address,set_start_address,set_register_rule,clear_register_rule,set_cfa,cfa_mut}, Pointer::direct
+
+ASSUMED (TRUSTED beyond core's ledger) -- each with the reason it is outside Verus and the Kani harness that checks the same sentence
+  parse_encoded_pointer              verified by the C05 batch; here only its frame `within(old, final)` is assumed (no value clause)
+  Wrapping<u64|i64>::mul (`mul`)     model of core::num::Wrapping (type unsupported by Verus); dependency, no partner
+  ArrayVec (struct), is_empty        model of read/util.rs (unsafe, MaybeUninit, raw pointers): a sequence bounded by ArrayLike::cap();
+                                     K-AVEC k_avec_sequence_model_cap4 / k_avec_boxed_push_pop_cap4 (bounded)
+  RegisterRuleMap::{get,set,clear}   bodies use iterator adapters (`iter().find`, `enumerate`) and `for &mut (..) in &mut *slice`; assumed
+                                     as a finite map with capacity; K-RRMAP k_rrmap_finite_map_cap2 (bounded, public API route)
+  UnwindContext::{new_in,reset,row,row_mut,save_initial_rules,get_initial_rule,push_row,pop_row}
+                                     bodies lean on ArrayVec's Deref<[T]> (`last_mut().unwrap()`, `self.stack[0]`, slice patterns on
+                                     `registers.rules`, match guard with `ref` binding, `Default::default()`); assumed over the abstract
+                                     context `abs()` which is DEFINED from the real fields (0 / 1 / many initial rules representation,
+                                     hidden bottom row), K-UCTX k_uctx_state_stack_cap4, k_uctx_reuse_equals_fresh (bounded)
+  `unsafe impl Structural for Vendor / Register` (prelude text in `common`): derived PartialEq on these two types is structural
+                                     equality (needed for `vendor == Vendor::AArch64`); `#[derive(Structural)]` crashes this Verus build
+  model text: ArrayLike::cap() for [T; N] and Box<[T; N]>, crate::AArch64::RA_SIGN_STATE (value read from arch.rs; the oracle uses
+                                     the literal 34 from the AArch64 DWARF ABI), DW_CFA_{advance_loc,offset,restore} (shifted constants)
+
+LOGGED REWRITES: R-GUARD on the `negate_ra_state if vendor == ..` match arm (Verus loses the &mut parameter across a guarded arm, see
+  populate); with_attrs=False on RegisterRuleMap / UnwindTableRow / UnwindContext / UnwindTable (derives over the model ArrayVec);
+  `impl UnwindContextStorage for StoreOnHeap` not emitted (Verus rejects the impl/associated-type cycle) -- all proofs are for every S.
+
+NOT DECIDED HERE
+  * UnwindContext::initialize / UnwindTable::{new, new_for_cie, new_for_fde} are not extracted (CommonInformationEntry /
+    FrameDescriptionEntry / UnwindSection belong to the C05 batch; a struct holding `&'ctx mut UnwindContext` built inside the
+    function is untested in this Verus build).  C20 for the context is carried by [C20:reset-fresh] / [C20:new-fresh] (assumed) and by
+    the bounded Kani harness k_uctx_reuse_equals_fresh, which runs the real `UnwindTable::new` (initialize) on a dirty context.
+  * next_row == iterated cfa_step over the *decoded* stream (needs a spec-level decoder; the loop body is the composition of the two
+    verified contracts); SetLoc under an .eh_frame pointer encoding (value owned by C05); acceptance clauses for SLEB128 operands and
+    DW_CFA_set_loc (the reader layer has no acceptance clause for read_sleb128 / read_address).
+  * after an *evaluation* error next_row does not stop the table: a caller that ignores the error gets further rows computed from the
+    remaining instructions (progress is still guaranteed, [C01:iter-progress]); not documented either way by gimli.
+  * preconditions stated, not proved at the API boundary: address_size in {1,2,4,8} (for .debug_frame it is established by the FDE
+    parser's read_address; under .eh_frame pointer encodings it is the C05 batch's obligation), storage with at least one row
+    ([C06:storage-nonempty]: `[UnwindTableRow; 0]` makes `new_in()` panic on `try_push(..).unwrap()`, native/src/bin/f_cfi_unwind_1.rs).
 """
 import re
 from lib import *
@@ -137,11 +188,11 @@ def shift_consts(ctx):
     return '\n'.join(out)
 
 
-MASK_BV = ('proof { assert(forall|i: u8| #![auto] (i & 0b1100_0000u8) == 0x40u8 <==> i as int / 64 == 1) by (bit_vector); '
-           'assert(forall|i: u8| #![auto] (i & 0b1100_0000u8) == 0x80u8 <==> i as int / 64 == 2) by (bit_vector); '
-           'assert(forall|i: u8| #![auto] (i & 0b1100_0000u8) == 0xc0u8 <==> i as int / 64 == 3) by (bit_vector); '
-           'assert(forall|i: u8| #![auto] (i & 0b1100_0000u8) == 0u8 <==> i as int / 64 == 0) by (bit_vector); '
-           'assert(forall|i: u8| #![auto] (i & !0b1100_0000u8) as int == i as int % 64) by (bit_vector); '
+MASK_BV = ('proof { let i = instruction; assert((i & 0b1100_0000u8) == 0x40u8 <==> i / 64 == 1) by (bit_vector); '
+           'assert((i & 0b1100_0000u8) == 0x80u8 <==> i / 64 == 2) by (bit_vector); '
+           'assert((i & 0b1100_0000u8) == 0xc0u8 <==> i / 64 == 3) by (bit_vector); '
+           'assert((i & 0b1100_0000u8) == 0u8 <==> i / 64 == 0) by (bit_vector); '
+           'assert((i & !0b1100_0000u8) == i % 64) by (bit_vector); '
            'assert(0x01u8 << 6 == 0x40u8) by (bit_vector); assert(0x02u8 << 6 == 0x80u8) by (bit_vector); assert(0x03u8 << 6 == 0xc0u8) by (bit_vector); }')
 
 
